@@ -18,6 +18,9 @@ class GlencoeFormat(rt.Format):
     ext = 'gfm.json'
     fields = ('ctc-names', 'ctc-by-name')
 
+    writer_cls = GlencoeWriter
+    reader_cls = GlencoeReader
+
     def write(self, fm, path):
         return GlencoeWriter(path, fm).transform()
 
